@@ -200,6 +200,12 @@ func (eng *Engine) scanBlock(fn *ssa.Function, b *ssa.BasicBlock, e *Effects) {
 			e.Unknown = append(e.Unknown, fmt.Sprintf("%T", x))
 		case *ssa.MakeSlice:
 			e.Allocs = true
+		case *ssa.Alloc:
+			// an array that becomes the backing store of a slice (slice literal, varargs, make with a constant size, a
+			// sliced local): the model gives it a region, so the region counter moves
+			if _, isArr := x.Type().(*types.Pointer).Elem().Underlying().(*types.Array); isArr {
+				e.Allocs = true
+			}
 		case ssa.CallInstruction:
 			eng.scanCall(fn, x, e)
 		}
